@@ -15,6 +15,9 @@ func (in *Interp) absMake(x *ssa.MakeSlice, n, c Int) (V, bool) {
 	if c.S == nil || n.S != nil || n.C != 0 {
 		return nil, false
 	}
+	if in.spec == nil || !in.spec.AbsMake {
+		return nil, false // only harnesses that ask for it (message-size claims); others concretise the capacity
+	}
 	b, ok := x.Type().Underlying().(*types.Slice).Elem().Underlying().(*types.Basic)
 	if !ok || b.Kind() != types.Uint8 {
 		return nil, false
